@@ -896,12 +896,48 @@ def part_full_runs(ctx, E):
         ctx.count("full-run-herd-simulations", len(run.herds))
 
 
+def part_enforcement(ctx, E):
+    """'a missing option is rejected before any computation' also where the computation starts: the parameters stage refuses a scenario
+    loader on which some option family was never set (constants from a real dispatch, one *_SET flag of the loader cleared)"""
+    from src.scenarios.run_scenario import ScenarioRunner
+    from src.optimizer.parameters import Parameters
+    from src.food_system.food import Food
+    from lib import pipeline
+    rng = ctx.rng
+    with ctx.quiet():
+        c, tc, sl = ScenarioRunner().set_depending_on_option(dict(pipeline.options(NMONTHS=48)), country_data=E.by_iso["ARG"])
+    flags = sorted(k for k, v in vars(sl).items() if k.endswith("_SET") and v is True)
+    for flag in rng.sample(flags, min(len(flags), ctx.budget(4, len(flags)))):
+        setattr(sl, flag, False)
+        calls = []
+        orig = Parameters.init_scenario if hasattr(Parameters, "init_scenario") else None
+        conv_before = Food.conversions
+        outcome = "completed"
+        try:
+            with ctx.quiet():
+                Parameters().compute_parameters_first_round(c, tc, sl)
+        except AssertionError:
+            outcome = "rejected"
+        except BaseException as e:  # noqa
+            outcome = "raised " + type(e).__name__
+        finally:
+            setattr(sl, flag, True)
+        if outcome != "rejected":
+            ctx.violation("missing-family-not-rejected", "a scenario loader with %s unset is accepted by Parameters.compute_parameters_first_round (%s) instead of being rejected "
+                          "before any computation" % (flag, outcome), {"flag": flag, "outcome": outcome})
+        elif Food.conversions is not conv_before:
+            ctx.violation("missing-family-rejected-late", "the loader with %s unset is rejected only after the process-wide unit settings were replaced" % flag, {"flag": flag})
+        ctx.case(("enforcement", flag), nontrivial=True, sample={"flag_cleared": flag, "outcome": outcome})
+        ctx.count("enforcement:" + outcome)
+
+
 def correspondence(ctx):
     E = setup(ctx)
     part_sequences(ctx, E)
     part_dispatch(ctx, E)
     part_heads(ctx, E)
     part_full_runs(ctx, E)
+    part_enforcement(ctx, E)
 
 
 def search(ctx):
@@ -910,7 +946,7 @@ def search(ctx):
         return
     ctx.tier, ctx.quick = ctx.tier, True
     E = setup(ctx)
-    for part in (part_sequences, part_dispatch, part_heads, part_full_runs):
+    for part in (part_sequences, part_dispatch, part_heads, part_full_runs, part_enforcement):
         try:
             part(ctx, E)
         except Exception as e:  # the model may no longer match the table; the oracles above do not depend on it
